@@ -85,11 +85,22 @@ func c53Check(x *dbx) *vx.Fail {
 	if f := c53CheckDir(x, nil, ""); f != nil {
 		return f
 	}
-	// variant: the newest WAL segment never reached the disk (lost WAL tail) while the head-chunk
-	// files did: data that exists only in chunks_head must be served by both kinds of open
+	// variants: the newest k WAL segments never reached the disk, or were cut off by a WAL repair at
+	// an earlier start (lost WAL tail), while the head-chunk files are there: data that exists only
+	// in chunks_head must be served by both kinds of open
 	first, last, err := wlog.Segments(filepath.Join(x.dir, "wal"))
-	if err == nil && last > first {
-		return c53CheckDir(x, func(dir string) { os.Remove(wlog.SegmentName(filepath.Join(dir, "wal"), last)) }, "lost-wal-tail/")
+	if err == nil {
+		for k := 1; k <= last-first && k <= 3; k++ {
+			k := k
+			f := c53CheckDir(x, func(dir string) {
+				for i := last; i > last-k; i-- {
+					os.Remove(wlog.SegmentName(filepath.Join(dir, "wal"), i))
+				}
+			}, fmt.Sprintf("lost-wal-tail-%d/", k))
+			if f != nil {
+				return f
+			}
+		}
 	}
 	return nil
 }
